@@ -185,11 +185,14 @@ impl<const BUFFER_CAPACITY: usize> RibbonController<BUFFER_CAPACITY> {
                 }
             }
         } else {
+            // any sample outside of the finger-press range interrupts the capture, even if no finger press has been
+            // registered yet, short taps and glitches must not add up to a finger press
+            self.num_samples_received = 0;
+            self.num_samples_written = 0;
+
             // if this flag is true right now then they must have just lifted their finger
             if self.finger_is_pressing {
                 self.finger_just_released = true;
-                self.num_samples_received = 0;
-                self.num_samples_written = 0;
                 self.finger_is_pressing = false;
             }
         }
